@@ -113,6 +113,9 @@ RefViol(ev, ln) ==
             IN (IF reuse \/ got = [i \in 1..n |-> i - 1] THEN <<>>
                 ELSE <<[l |-> ln, prop |-> "C14,C13,C01", ctx |-> Ctx(ev), what |-> "records read back from the outputs differ from the records buffered",
                         got |-> got, want |-> n]>>)
+               \o (IF "nbps" \notin DOMAIN sc \/ \A x \in Range(ev.outs) : ~(x.final /\ ~x.old /\ "nbps" \in DOMAIN x /\ x.fin = "eof" /\ x.o <= Len(sc.nbps) /\ x.nbps # sc.nbps[x.o])
+                   THEN <<>>
+                   ELSE <<[l |-> ln, prop |-> "C09,C13", ctx |-> Ctx(ev), what |-> "the preamble of an output does not hold the parameter sets that had been added when it was opened"]>>)
                \o (IF badfin = {} THEN <<>>
                    ELSE <<[l |-> ln, prop |-> IF named THEN "C14,C13,C02,C15" ELSE "C14,C13,C02", ctx |-> Ctx(ev), what |-> "an output is not a single complete stream holding a complete C-DNS file",
                            outs |-> badfin]>>))
@@ -192,9 +195,12 @@ FViol(ev, r, ln) ==
                                    {x \in Range(ev.outs) : /\ x.final /\ ~x.old /\ x.o > fo
                                                            /\ \/ ~x.stream_ok
                                                               \/ sc.target = "writer" /\ (x.rest # 0 \/ (x.o <= Len(exp) /\ x.chunks # exp[x.o]))
-                                                              \/ sc.target # "writer" /\ x.fin \notin {"eof", "empty"}}
+                                                              \/ sc.target # "writer" /\ x.fin \notin {"eof", "empty"}
+                                                              \* (scenarios that add parameter sets state how many each output's preamble holds)
+                                                              \/ ("nbps" \in DOMAIN sc /\ "nbps" \in DOMAIN x /\ x.fin = "eof" /\ x.o <= Len(sc.nbps)
+                                                                  /\ x.nbps # sc.nbps[x.o])}
                         IN IF excBefore \/ (~excAfter /\ bad = {} /\ ev.status = 0) THEN <<>>
-                           ELSE <<[l |-> ln, prop |-> "C14,C16", ctx |-> Ctx(r), k |-> ev.k, kind |-> sc.kind, comp |-> sc.comp, target |-> sc.target,
+                           ELSE <<[l |-> ln, prop |-> IF "nbps" \in DOMAIN sc THEN "C14,C16,C09" ELSE "C14,C16", ctx |-> Ctx(r), k |-> ev.k, kind |-> sc.kind, comp |-> sc.comp, target |-> sc.target,
                                    fault |-> ev.fault, persistent |-> ev.persistent, phase |-> FaultPhase(ev.log), symptom |-> "later_output_corrupt",
                                    what |-> IF ev.status # 0 THEN "after a single, unreported output fault and a successful rotation the calls on the new output do not terminate / the process dies"
                                             ELSE IF excAfter THEN "after a single, unreported output fault and a successful rotation a call on the new output (which met no fault) failed"
